@@ -180,6 +180,20 @@ def _check(task):
         dm = md.dipole_moments(t0, np.array(case["charges"], dtype=float))[0]
         if np.abs(dm - np.array(exp["dipole"]) * G).max() > 2e-4 * (1 + np.abs(dm).max()):
             probs.append("dipole_moments differs from sum q x for a neutral system")
+    # element masses taken by default, asked again after every other analysis has run on the same Trajectory / Topology objects
+    for again in range(2):
+        d_def = md.density(t)[0]
+        if abs(d_def - exp["mass"] / 100.0 / (exp["vol"] * G ** 3) * 1.6605387823355087) > 3e-4 * d_def:
+            probs.append("density (element masses%s) differs from mass / volume: %.5f" % (", second call" if again else "", d_def)); break
+        com2 = md.compute_center_of_mass(t)[0]
+        if np.abs(com2 - np.array(exp["com"]) / exp["mass"] * G).max() > 3e-4:
+            probs.append("compute_center_of_mass (repeated call) differs from sum(m x)/sum(m)"); break
+        if len(case["sel"]) < n:
+            sub = "index " + " ".join(str(int(i)) for i in sorted(sel))
+            cs = md.compute_center_of_mass(t, select=sub)[0]
+            ms = np.array([MASS[top.atom(int(i)).element.symbol] for i in sorted(sel)], dtype=float)
+            if np.abs(cs - (ms[:, None] * P[sorted(sel)]).sum(0) / ms.sum() * G).max() > 3e-4:
+                probs.append("compute_center_of_mass(select=...) differs from the centre of mass of the selected atoms"); break
     dens = md.density(t, masses=w / 100.0)[0]
     if abs(dens - exp["mass"] / 100.0 / (exp["vol"] * G ** 3) * 1.6605387823355087) > 1e-4 * dens:
         probs.append("density differs from mass / volume")
